@@ -461,6 +461,43 @@ def lemma_KeySoftN_mono():
     )
 
 
+def lemma_CnfHolds_snoc():
+    from pyvc import zexpr as ZX
+
+    cnf = z3.Const("cnf_cs", LLInt.sort)
+    cl = z3.Const("cl_cs", LInt.sort)
+    li = z3.Int("li_cs")
+    sg = z3.Const("sg_cs", ZX.ZS)
+    n = z3.Int("n_cs")
+    CW = z3.Function("z_CnfHolds!w", LLInt.sort, ZX.ZS, L.Int, L.Int)
+    KW = z3.Function("z_ClauseHolds!w", LInt.sort, ZX.ZS, L.Int, L.Int)
+    sc = LLInt.snoc(cnf, cl)
+    m = LLInt.len(cnf)
+    C, K = ZX.CnfHolds, ZX.ClauseHolds
+    r1 = _prove(
+        "CnfHolds.snoc",
+        [
+            ("=> old", [n == m + 1, C(sc, sg, n)], C(cnf, sg, m), [LLInt.at(sc, CW(cnf, sg, m))]),
+            ("=> new", [n == m + 1, C(sc, sg, n)], K(cl, sg, LInt.len(cl)), [LLInt.at(sc, m)]),
+            ("<=", [n == m + 1, C(cnf, sg, m), K(cl, sg, LInt.len(cl))], C(sc, sg, n), [LLInt.at(cnf, CW(sc, sg, n))]),
+        ],
+        exclude=["CnfHolds.snoc"],
+    )
+    sl = LInt.snoc(cl, li)
+    k = LInt.len(cl)
+    r2 = _prove(
+        "ClauseHolds.snoc",
+        [
+            ("=>", [n == k + 1, K(sl, sg, n)], z3.Or(K(cl, sg, k), ZX.lt(li, sg)), [LInt.at(cl, KW(sl, sg, n))]),
+            ("<= old", [n == k + 1, K(cl, sg, k)], K(sl, sg, n), [LInt.at(sl, KW(cl, sg, k))]),
+            ("<= new", [n == k + 1, ZX.lt(li, sg)], K(sl, sg, n), [LInt.at(sl, k)]),
+        ],
+        exclude=["ClauseHolds.snoc"],
+    )
+    st = "proved" if r1["status"] == r2["status"] == "proved" else ("failed" if "failed" in (r1["status"], r2["status"]) else "undecided")
+    return {"name": "CnfHolds.snoc / ClauseHolds.snoc", "status": st, "parts": r1["parts"] + r2["parts"], "seconds": r1["seconds"] + r2["seconds"]}
+
+
 def lemma_mem_at():
     mem, memw = L.mem_theory(L.Int)
     l = z3.Const("l_mat", LInt.sort)
@@ -477,6 +514,7 @@ LEMMAS = {
     "mem.at.Int": lemma_mem_at,
     "CoveredUpTo.snoc": lemma_CoveredUpTo_snoc,
     "KeySoftN.mono": lemma_KeySoftN_mono,
+    "CnfHolds.snoc": lemma_CnfHolds_snoc,
     "MCS.bridge": lemma_MCS_bridge,
     "MCS.bridge2": lemma_MCS_bridge2,
     "XI": lemma_XI,
